@@ -456,6 +456,17 @@ func (ex *Exec) set(fr *Frame, v ssa.Value, val Value) {
 	fr.locals[fr.fn.index[v]] = val
 }
 
+// fold replaces a term that this path has fixed to a constant (by
+// concretisation) with that constant.
+func (st *State) fold(val Value) Value {
+	if t, ok := val.(*smt.Term); ok && st.conc != nil && !t.IsConst() {
+		if c, ok := st.conc[t.ID]; ok {
+			return st.ex.ctx.Const(t.W, c)
+		}
+	}
+	return val
+}
+
 func (ex *Exec) globalPtr(st *State, g *ssa.Global) (Value, error) {
 	if id, ok := ex.globals[g]; ok {
 		return single(&Loc{Obj: id}, ex.ctx), nil
